@@ -92,6 +92,11 @@ class BuiltinsMixin:
             v = v.val
         if isinstance(v, VInt):
             return v
+        if isinstance(v, VStr) and vals.concrete_str(v) is not None:
+            try:
+                return VInt(int(vals.concrete_str(v)))
+            except ValueError:
+                self.raise_builtin("ValueError")
         if isinstance(v, VStr):
             # int(s): ValueError unless s is an optionally signed decimal (whitespace ignored: dropped)
             digits = z3.Plus(z3.Range("0", "9"))
@@ -119,6 +124,8 @@ class BuiltinsMixin:
 
     def isinstance_(self, v, clsv):
         clsd = self.deref(clsv)
+        if isinstance(clsd, VNative) and clsd.name in _TYPE_NAMES:
+            clsd = VExtClass(clsd.name)  # str / list / dict ... are modelled as callables
         if isinstance(clsd, (VTuple, VList)):
             return z3.Or([self.isinstance_(v, c) for c in clsd.items] + [z3.BoolVal(False)])
         if isinstance(v, VOpt):
@@ -146,6 +153,12 @@ class BuiltinsMixin:
         if isinstance(v, VRef):
             cell = self.heap()[v.addr]
             if cell.val is not None:
+                if isinstance(clsd, VExtClass):
+                    nm = clsd.name.split(".")[-1]
+                    d = cell.val
+                    return z3.BoolVal({"dict": isinstance(d, (VMap, VConstDict)), "list": isinstance(d, VList),
+                                       "set": isinstance(d, VSet), "deque": isinstance(d, VList),
+                                       "object": True}.get(nm, False))
                 return z3.BoolVal(False)
             if cell.native is not None:
                 return z3.BoolVal(cell.native.isinstance(self, v, clsd))
